@@ -473,7 +473,7 @@ def dump_one(f: TextIO, data: IOData):
 
     # write net charge, number of electrons, number of alpha electrons, and number beta electrons
     _write_xml_single_scientific(tag=lbs["charge"], info=data.charge, file=f)
-    _write_xml_single(tag=lbs["num_electrons"], info=int(data.nelec), file=f)
+    _write_xml_single(tag=lbs["num_electrons"], info=int(round(data.nelec)), file=f)
     # wfx expects integer values for number of alpha/beta electrons but int rounds down the float
     # so round is used before turning it to integer to get the correct number.
     _write_xml_single(tag=lbs["num_alpha_electron"], info=int(round(sum(data.mo.occsa))), file=f)
@@ -481,7 +481,7 @@ def dump_one(f: TextIO, data: IOData):
 
     # write electronic spin multiplicity and model (both optional)
     if data.spinpol is not None:
-        _write_xml_single(tag=lbs["spin_multi"], info=int(data.spinpol + 1), file=f)
+        _write_xml_single(tag=lbs["spin_multi"], info=int(round(data.spinpol)) + 1, file=f)
     if data.lot is not None:
         _write_xml_single(tag=lbs["model_name"], info=data.lot, file=f)
 
